@@ -456,3 +456,11 @@ func specBadData(stream, function byte, w bool, item secs2.Item) bool {
 //@ emits hsms.(transport).Write, hsms.(*ConnectionMetrics).incDataMsgSend, hsms.(*connection).dropNotSelected, hsms.(*ConnectionMetrics).incDataMsgDropNotSelected, hsms.(*connection).TCPDown, IsSelected:true, IsSelected:false, hsms.(*ConnectionMetrics).incDataMsgErr
 //@ ensures [gate] specIsData(msg) && zzCalls("IsSelected:false") > 0 ==> zzCalls("hsms.(transport).Write") == 0 &&
 //@                result == ErrNotSelectedState && zzCalls("hsms.(*ConnectionMetrics).incDataMsgDropNotSelected") == 1
+
+// ---- the Message interface has exactly two implementations; callers may case-split on them ----
+
+//@ iface Message.Type
+//@ dispatch *ControlMessage, *DataMessage
+
+//@ func (*DataMessage).Type
+//@ ensures [data] result == DataMsgType
